@@ -16,7 +16,7 @@ from ..main import Report
 
 PROP = 'C17'
 PARTS = ('fault',)
-QUICK = (42, 40)
+QUICK = (52, 40)
 THOROUGH = (600, 400)
 
 
